@@ -20,16 +20,32 @@ def run_item(item):
 
   cfg = dict(item["cfg"])
   cfg["option"] = dict(item["opt"])
+  if (item.get("flags") or {}).get("sleep") != "enable" or not cfg.get("sleep_policy"):
+    cfg.pop("sleep_policy", None)  # per-body sleep policies only with the sleep flag on
   if item.get("flags"):
     cfg["option"]["flags"] = dict(item["flags"])
   spec = gen.make_scene(cfg) if item.get("scene") else gen.make_spec(cfg)
   if item.get("scene"):
     spec["option"] = dict(cfg["option"])
+  mo = item.get("mopt") or {}
+  if mo.get("fluid"):
+    spec["option"]["density"], spec["option"]["viscosity"] = mo["fluid"]
+  if (item.get("flags") or {}).get("sleep") == "enable":
+    spec["option"]["solver"] = "Newton"  # sleeping is accepted with the Newton solver only
   mjm = H.compile_spec(spec)
   m = H.put_model(mjm)
+  from mujoco_warp._src import types as T
+
+  if mo.get("broadphase") is not None:
+    m.opt.broadphase = T.BroadphaseType(mo["broadphase"])
+  if mo.get("broadphase_filter") is not None:
+    m.opt.broadphase_filter = T.BroadphaseFilter(mo["broadphase_filter"])
+  if mo.get("warn_overflow") is not None:
+    m.opt.warn_overflow = bool(mo["warn_overflow"])
   n = item["nworld"]
   d = H.make_data(mjm, nworld=n, nconmax=item["nconmax"], njmax=item["njmax"])
-  states = [H.rand_state(mjm, item["state_seed"] + 13 * w, sigma=0.1, vel=0.5, applied=True) for w in range(n)]
+  presleep = bool(item.get("asleep")) and (item.get("flags") or {}).get("sleep") == "enable" and mjm.ntree > 0
+  states = [H.rand_state(mjm, item["state_seed"] + 13 * w, sigma=0.1, vel=0.5, applied=not presleep) for w in range(n)]  # applied forces would wake every tree
   if not item.get("scene"):
     H.set_data(d, states)
   else:
@@ -37,6 +53,29 @@ def run_item(item):
     for s in states:
       s["qpos"] = np.array(mjm.qpos0, dtype=np.float64)
     H.set_data(d, states)
+  if presleep:
+    # some islands / unconstrained trees start asleep (written the way sleep_test.py does it: tree_asleep cycles + update_sleep, zero velocity)
+    from mujoco_warp._src import sleep as mjw_sleep
+
+    mjw.forward(m, d)
+    g = np.random.default_rng(item["state_seed"] + 5)
+    ti = d.tree_island.numpy() if d.tree_island.shape[1] else np.full((n, mjm.ntree), -1)
+    asleep = d.tree_asleep.numpy().copy()
+    qvel = d.qvel.numpy().copy()
+    for w in range(n):
+      groups = {}
+      for t in range(mjm.ntree):
+        groups.setdefault(("i", int(ti[w, t])) if ti[w, t] >= 0 else ("t", t), []).append(t)
+      for key in sorted(groups):
+        if g.uniform() < item["asleep"]:
+          grp = groups[key]
+          for k, t in enumerate(grp):
+            asleep[w, t] = grp[(k + 1) % len(grp)]
+            a = int(mjm.tree_dofadr[t])
+            qvel[w, a : a + int(mjm.tree_dofnum[t])] = 0.0
+    d.qvel.assign(qvel)
+    d.tree_asleep.assign(asleep)
+    mjw_sleep.update_sleep(m, d)
   out = {}
   for k in range(item["nstep"]):
     mjw.step(m, d)
